@@ -75,9 +75,18 @@ Example T07_partial_nontrivial :
             Def "unusedFunc" false] in
   let m' := run_rules (safe_preserve [] m)
               [(RUndefine, o_all); (RPointless, o_all); (RDeleteUnused, o_all); (RSelfCls, o_all);
-               (RMoveStatic, o_all); (RDuplicate, o_all); (RAlign, o_all)] m in
+               (RMoveStatic, o_all); (RDuplicate, o_all); (RAlign, o_all); (RUnreachable, o_all)] m in
   top_surface m' = top_surface m /\ member_surface m' = member_surface m.
 Proof. vm_compute. auto. Qed.
+
+(* R07.5 (hunt C07-0) the pinned delete_unreachable_code (no preserve parameter) left class members that
+   follow a blocking statement unguarded; repaired: RUnreachable is now one of the rules of T07.2/T07.3. *)
+Theorem R07_5_pinned_unreachable_unguarded :
+  exists m c f, In (c, f) (member_surface m) /\ In f (safe_preserve [] m) /\
+                g_unreachable_pinned (safe_preserve [] m) (SMVar c false f) = false /\
+                ~ In (c, f) (member_surface (apply_rule g_unreachable_pinned (safe_preserve [] m) o_delete_second_member m)).
+Proof. exact unreachable_pinned_unguarded. Qed.
+Print Assumptions R07_5_pinned_unreachable_unguarded.
 
 (* R07 the full property is refuted by the `_` convention (finding F07-3). *)
 Theorem R07_underscore_refuted :
